@@ -894,6 +894,7 @@ ASSUMPTIONS = [
     "str::to_lowercase is stubbed by ASCII lower-casing that asserts its input is ASCII (identifiers are ASCII by the grammar)",
     "trusted: rustc/Kani codegen, CBMC, CaDiCaL, core/alloc primitives, the reference models in /verif/harness/src (validated natively by `replay --selftest`)",
     "harnesses in mode `leaf` additionally replace Expr::run and <Expr as Clone>::clone by their restriction to leaf expressions (Const / Ident), any other expression trips an assertion; agreement of the restriction with the real code on leaves is decided by the c05_leaf_* harnesses (mode `full`)",
+    "pass-level scenarios (harnesses p<NN>_*, src/pass.rs): programs of CONCRETE shape (which items, which segments, .org positions, reservation sizes) with symbolic values; every input vector is a view of a stack array (Vec::from_raw_parts(.., n, 0)) because CBMC folds enum tags of stack objects only; pass 2 is run on a stack-backed value that the solver has shown equal (derived PartialEq, plus the RAM figure) to what build_pass_1 returned - an unequal pass-1 result fails the run; the native replay chains the two passes for real; /repo hook d0d4f28 leaks the items pass 1 collected so far on its error paths (cfg avra_verif only); induction over longer programs is NOT machine-checked",
     "mode `cap` (C12) replaces parse_str and build_pass_0/1/2 by stubs that install a symbolic device record and return images of symbolic size; mode `hex` (C07) replaces ihex::create_object_file_representation by a record-level reference reader",
     "a harness that fails is re-run under other crate hashes (cargo features salt1..4, no code depends on them) before counterexample extraction: a SUCCESSFUL run is accepted (sound: not folding a loop only loses precision), failures that do not reproduce in the native replay are reported as exit 2, never as violations",
 ]
